@@ -1,4 +1,5 @@
 import AkVerif.Model.Common
+import AkVerif.Model.Sgr
 /-!
 Rendering of printable objects, reduced to what C10 is about (`/repo/ak/color.py` `_CHTextChunk`,
 `CHText.make/_merge_chunks/_append_chunk/join/__str__/plain_text/strip_colors`, and the way
@@ -127,35 +128,14 @@ def joinCells (sep : Char) : List (List Chunk) → List (Char × Color)
   | [l] => cellsOf l
   | l :: rest => cellsOf l ++ (sep, []) :: joinCells sep rest
 
-/-! ### `CHText.strip_colors`: remove every `ESC [ [0-9;:]* m` -/
+/-! ### `CHText.strip_colors`
 
+The model of `strip_colors` is C09's (`Sgr.strip`, `Model/Sgr.lean`): a regular-expression scanner over a
+character class that is *generated from the pattern in the source* (`\\d` = all Unicode decimal digits). The
+driver executes it on every coloured whole text (`Drv/C10.lean`), the theorems are stated with it. -/
+
+/-- the parameter characters the package itself emits: ASCII digits, `;`, `:` -/
 def isSgrParam (c : Char) : Bool := c.isDigit || c == ';' || c == ':'
-
-inductive StripSt where
-  | normal
-  | afterEsc
-  /-- after `ESC [` and the parameter characters `buf` (reversed) -/
-  | inParams (buf : List Char)
-
-/-- a scanner equivalent to `re.sub("\033\\[[;:\\d]*m", "", text)`: the character class cannot match
-`m` or `ESC`, so a candidate that is not closed by `m` is emitted literally and scanning resumes at
-the offending character -/
-def stripGo : StripSt → List Char → List Char
-  | .normal, [] => []
-  | .afterEsc, [] => [esc]
-  | .inParams buf, [] => esc :: '[' :: buf.reverse
-  | .normal, c :: r => if c = esc then stripGo .afterEsc r else c :: stripGo .normal r
-  | .afterEsc, c :: r =>
-    if c = '[' then stripGo (.inParams []) r
-    else if c = esc then esc :: stripGo .afterEsc r
-    else esc :: c :: stripGo .normal r
-  | .inParams buf, c :: r =>
-    if isSgrParam c then stripGo (.inParams (c :: buf)) r
-    else if c = 'm' then stripGo .normal r
-    else if c = esc then esc :: '[' :: (buf.reverse ++ stripGo .afterEsc r)
-    else esc :: '[' :: (buf.reverse ++ c :: stripGo .normal r)
-
-def strip (s : List Char) : List Char := stripGo .normal s
 
 /-- a prefix the package can produce: empty, or `ESC [ params m` -/
 def ValidPrefix (p : Color) : Prop :=
